@@ -47,6 +47,11 @@ TokGas == IF allow.listed THEN allow.gas ELSE defaultGas       \* limit used for
 
 Bump(c, ch, d, dout, dsent) == [c EXCEPT ![ch][d] = [out |-> @.out + dout, sent |-> @.sent + dsent]]
 
+\* upgrade of a deployed contract: a fixture run starts from the world (both contracts' storage, bank, packets in flight)
+\* recorded from the released code; what the code under test reads from it is what the release reported
+FromFixture == "fixture" \in DOMAIN E.cfg
+UpgradeKeepsState == E.act = "reset" /\ Ok /\ FromFixture => E.obs = E.cfg.expect
+
 \* ------------------------------------------------------------------ C11
 C11_Solvent == \A d \in Denom : held[d] >= SumF(Chan, [c \in Chan |-> chan[c][d].out])
 C11_ChannelBound == \A c \in Chan : \A d \in Denom : credit[c][d] >= 0
